@@ -44,7 +44,9 @@ def _p(cid, technique, level, design):
 _p("C02", "bounded exhaustive enumeration of assignments x renderings (generator with inverse) on the real parser",
    "model checking of the implementation: every assignment of <= k items over a byte-level value alphabet and every rendering of it "
    "(4 option forms, long/short/bundled toggles, all item orders, every `--` placement, with and without short names) is parsed by the "
-   "real parser and must give back exactly the assignment, byte for byte and in order, plus typed access for decimal texts",
+   "real parser - through parse(argc, argv) and, for well-formed tokens, parse(std::vector<user_input>) - and must give back exactly the assignment, "
+   "byte for byte and in order, plus typed access for decimal texts; five declarations (short names, long only, prefix-related names, named groups, "
+   "toggles with non-zero defaults)",
    "DESIGN.md 6 C02")
 _p("C03", "bounded exhaustive enumeration of source configurations (command line x environment x default x optional) vs reference",
    "model checking of the implementation: all combinations of {given in each spelling, not given} x environment {unbound, unset, empty, "
@@ -106,24 +108,24 @@ TEXT["C07"] = dict(engine="seqmc", design_ref="DESIGN.md 6 C07",
 
 TEXT["C17"] = dict(engine="enum", design_ref="DESIGN.md 6 C17",
     technique="bounded exhaustive enumeration of strings x separators / patterns / replacements vs naive single-pass references, with per-case termination oracle",
-    level="model checking of the implementation: every string over {a,b,blank} up to the length bound x every separator/pattern/replacement "
+    level="model checking of the implementation: every string over {a,b,blank} up to the length bound (and over {a,NUL} up to 5) x every separator/pattern/replacement "
           "of length <= 3 (empty, overlapping and self-containing ones included) and every list of <= 3 elements x 5 infixes is run through "
           "the real split / replace_all / starts_with / join; the laws of the statement and agreement with naive left-to-right scanners are "
           "checked on every case, and every call must return (timer + address-space limit)",
-    note="trusted: the naive reference scanners in checks/C17.cpp; alphabet of 3 characters; g++/ASan")
+    note="trusted: the naive reference scanners in checks/C17.cpp; alphabets of 3 characters and of {a, NUL}; g++/ASan")
 TEXT["C18"] = dict(engine="seqmc", design_ref="DESIGN.md 6 C18",
     technique="explicit-state BFS to a fixpoint over operation histories on real quaint_ptr / optional objects vs ownership table / std::optional",
     level="model checking of the implementation: all reachable states of a pool of 3 quaint_ptr + a vector<quaint_ptr> over three payload "
-          "types, and of a pool of 2 optionals, under every operation of the alphabet (create, move-construct, move-assign, reset, nullptr, "
-          "destroy, swap, vector push/insert/erase/pop/clear/take-back; construct, copy, assign lvalue/temporary/empty/self, read), to a "
+          "types, and of a pool of 2 optionals (for three payload types: tracked struct, bool, std::string), under every operation of the alphabet (create, move-construct, move-assign, reset, nullptr, "
+          "destroy, swap, vector push/insert/erase/pop/clear/take-back; construct, copy from const / non-const source, assign const lvalue / non-const lvalue / temporary / moved / empty / self, read), to a "
           "fixpoint; after every transition the set of payloads destroyed must be exactly the reference's, by the right destructor, moved-from "
           "and reset pointers test empty, copies are deep, reading empty raises, and the teardown destroys everything exactly once",
     note="trusted: the ownership-table reference and payload accounting in checks/C18.cpp; canonical state ignores payload ids")
 TEXT["C20"] = dict(engine="seqmc", design_ref="DESIGN.md 6 C20",
     technique="exhaustive enumeration of container kind x length x value category x adaptor x iteration style on the real adaptors",
     level="model checking (degenerate: one-step histories): every combination of 12 container kinds (vector, deque, list, map, set, std::array<0..4>, "
-          "fixed_vector full / with spare capacity, built-in arrays, initializer lists) x lengths 0..4 x lvalue/const/temporary x enumerate/"
-          "reverse x iteration styles (range-for, ++it, it++, *it++) is executed; order, indices 0..n-1, exactly-once, aliasing by address and "
+          "fixed_vector full / with spare capacity, built-in arrays, initializer lists) x lengths 0..4 x lvalue/const/temporary/temporary whose range object is moved on or copied before the loop x enumerate/"
+          "reverse/enumerate(reverse) x iteration styles (range-for, ++it, it++, *it++) is executed; order, indices 0..n-1, exactly-once, aliasing by address and "
           "write-through, and liveness of temporaries for the whole loop are judged",
     note="trusted: instrumented element type with live-set; ASan for dangling temporaries")
 
@@ -132,7 +134,8 @@ TEXT["C08"] = dict(engine="enum", design_ref="DESIGN.md 6 C08",
     level="model checking of the implementation: every format string over {'{','}','a'} up to the length bound x every argument count 0..k+1 "
           "x every tuple over argument texts that themselves contain braces and placeholders, through operator% and args(...), read by str(), "
           "conversion and operator<<; typed values and stream manipulators; exception messages alone and after every ordered pair of earlier "
-          "exceptions (sticky manipulators, nested raise) - text must equal positional, verbatim, never-rescanned substitution and wrong arity must raise",
+          "exceptions (sticky manipulators, nested raise); every history of supply/read/copy/move events up to the history bound on one formatter "
+          "object, judged at every read - text must equal positional, verbatim, never-rescanned substitution and wrong arity must raise",
     note="trusted: the naive reference scanner; narrow-character formats; for > 3 placeholders only three arguments vary")
 TEXT["C16"] = dict(engine="enum", design_ref="DESIGN.md 6 C16",
     technique="exhaustive enumeration of all pairs, triples and in-place change histories over small member grids",
